@@ -1,6 +1,6 @@
 """Functions of every kind for the tracer, encoding and stub harnesses."""
 import functools
-from typing import Any, Dict, Iterator, List, Optional
+from typing import Any, Dict, Iterator, List, Optional, Union
 
 from vfix.classes import A, B, UserId
 
@@ -183,3 +183,28 @@ def unannotated(a, b):
 
 
 NOT_A_FUNCTION = 3
+
+
+@decorator
+@decorator
+def double_wrapped(a):
+    return a
+
+
+class Deco:
+    @classmethod
+    @decorator
+    @decorator
+    def build(cls, a):
+        return a
+
+    def annotated_self(self: "Deco", a):
+        return a
+
+    @classmethod
+    def annotated_cls(cls: type, a: int):
+        return a
+
+
+def ann_union_none_default(key: Union[int, str] = None, other=None):  # noqa: RUF013
+    return key
